@@ -236,7 +236,55 @@ def cuboid_stream(ctx, n):
             ctx.disagree("C17:eq:polyhedron", desc + f" perm={perm}", (True, True, False), eq[1:3], replay=[desc])
 
 
+def element_measures_stream(ctx, n):
+    """measures of polygons handed out by the library itself: elements of a PolygonCollection (index / iteration) and facets of a
+    polyhedron are typed by their vertex count (four vertices: Rectangle) whatever their shape — area and centroid must be those
+    of the Polygon with the same vertices (trapezoids, darts, side faces of a frustum)"""
+    import geometer as g
+    rng = ctx.rng
+    QUADS = [[(0, 0), (4, 0), (3, 2), (1, 2)], [(0, 0), (2, 1), (4, 0), (2, 3)], [(0, 0), (3, 0), (4, 2), (0, 2)], [(0, 0), (5, 0), (4, 1), (2, 3)]]
+    for k in range(n):
+        if k % 3 < 2:
+            quads = []
+            for _ in range(rng.randint(2, 3)):
+                q = rng.choice(QUADS)
+                dx, dy, r = rng.randint(-3, 3), rng.randint(-3, 3), rng.randrange(4)
+                q = [(x + dx, y + dy) for x, y in q]
+                quads.append(q[r:] + q[:r])
+            arr = np.array([[[float(x), float(y), 1.0] for x, y in q] for q in quads])
+            i = rng.randrange(len(quads))
+            desc = f"element {i} of a PolygonCollection of quadrilaterals {quads}"
+            def run():
+                PC = g.PolygonCollection(arr)
+                ref = g.Polygon(*[g.Point(float(x), float(y)) for x, y in quads[i]])
+                return [(float(ref.area), float(PC[i].area), float(list(PC)[i].area), float(PC.area[i])),
+                        tuple(np.round(np.real(np.asarray(x.centroid.normalized_array, dtype=complex)), 9).tolist()[0] for x in (ref, PC[i]))]
+        else:
+            # frustum: square base of side 4 in z = 0, square top of side 2 in z = 2
+            b = [(-2, -2, 0), (2, -2, 0), (2, 2, 0), (-2, 2, 0)]
+            t = [(-1, -1, 2), (1, -1, 2), (1, 1, 2), (-1, 1, 2)]
+            sh = [rng.randint(-2, 2) for _ in range(3)]
+            P = lambda v: g.Point(*[float(c + d) for c, d in zip(v, sh)])
+            faces = [[b[0], b[1], b[2], b[3]], [t[0], t[1], t[2], t[3]]] + [[b[j], b[(j + 1) % 4], t[(j + 1) % 4], t[j]] for j in range(4)]
+            desc = f"facets of a frustum shifted by {sh}"
+            def run():
+                ph = g.Polyhedron(*[g.Polygon(*[P(v) for v in f]) for f in faces])
+                refs = [float(g.Polygon(*[P(v) for v in f]).area) for f in faces]
+                return [tuple(refs), tuple(float(x.area) for x in ph.facets), tuple(float(ph[j].area) for j in range(6)), (float(ph.area), sum(refs))]
+        ctx.case(desc)
+        ctx.count("element-measures")
+        r = call_impl(run)
+        ok = r[0] == "ok"
+        if ok and k % 3 < 2:
+            ok = max(r[1][0]) - min(r[1][0]) <= 1e-9 and r[1][1][0] == r[1][1][1]
+        elif ok:
+            ok = np.allclose(r[1][0], r[1][1], atol=1e-9) and np.allclose(r[1][0], r[1][2], atol=1e-9) and abs(r[1][3][0] - r[1][3][1]) <= 1e-9
+        if not ok:
+            ctx.disagree("C17:element-measures", desc, "the measures of the Polygon with the same vertices", r[1:3], replay=[desc])
+
+
 def correspondence(ctx):
+    element_measures_stream(ctx, ctx.budget(45, 450))
     polygon_stream(ctx, ctx.budget(60, 1500))
     simplex_stream(ctx, ctx.budget(80, 1500))
     regular_stream(ctx, ctx.budget(40, 500))
